@@ -68,6 +68,14 @@ func (v *Vue) evaluate(ctx VueContext, nodes []*html.Node, depth int) ([]*html.N
 				continue
 			}
 
+			// Skip v-else-if and v-else if they appear without v-if (they are handled
+			// as part of a chain, or as the else branch of a preceding v-for). This comes
+			// before v-for: an orphan that also carries v-for must not run as a loop,
+			// whose empty result would pull in the next v-else sibling.
+			if !helpers.HasAttr(node, "v-if") && (helpers.HasAttr(node, "v-else-if") || helpers.HasAttr(node, "v-else")) {
+				continue
+			}
+
 			if helpers.HasAttr(node, "v-for") {
 				chainResult, skipCount, err := v.evalVFor(ctx, node, nodes[i:], depth)
 				if err != nil {
@@ -98,12 +106,6 @@ func (v *Vue) evaluate(ctx VueContext, nodes []*html.Node, depth int) ([]*html.N
 				result = append(result, chainResult...)
 				// Skip past the v-else-if and v-else nodes that were part of this chain
 				i += skipCount
-				continue
-			}
-
-			// Skip v-else-if and v-else if they appear without v-if
-			// (they should be handled as part of a chain)
-			if helpers.HasAttr(node, "v-else-if") || helpers.HasAttr(node, "v-else") {
 				continue
 			}
 
